@@ -421,13 +421,15 @@ def rule_kernel_columns(mod, rep):
                     rep.brk("KERN-COL %s: leading dimension of %s at line %s has %d definitions" % (f.name, c.callee, c.ln, len(lds))); continue
                 ld = dict(lds.pop())
             else:
-                ld = P.of(c.ops[kl])
+                ld = P.of(c.ops[kl]); ldp = None
             cof = {}
             for (sg, leaf) in P.additive_leaves(idx[0]):
                 if leaf[0] == "v" and f.inst[leaf[1]].op == "mul":
                     m = f.inst[leaf[1]]
                     for k in (0, 1):
-                        if P.of(m.ops[k]) == ld:
+                        mk = strip_casts(f, m.ops[k])
+                        same_cell = ldp is not None and mk[0] == "v" and f.inst[mk[1]].op == "load" and strip_casts(f, f.inst[mk[1]].ops[0]) == ldp
+                        if P.of(m.ops[k]) == ld or same_cell:
                             cof = padd(cof, P.of(m.ops[1 - k]), sg)
                             break
             info.append((c, kind, cof))
